@@ -287,9 +287,11 @@ theorem handleSm_cases (P : Conn → Prop) (c : Conn) (st : XTree)
     (hdis : ∀ s', s'.enabled = false → SmKeep c.sm s' → P { c with sm := s' })
     (hen : c.sm.enabled = true → st.name? = some (b "enabled") → ∀ s', SmEnabled c.sm s' →
       P (negotiationSuccess (smQueueResend { c with sm := s' })))
-    (hres : ∀ ours v, c.sm.previd = some ours → st.name? = some (b "resumed") →
+    (hres : ∀ ours v, c.sm.previd = some ours → st.name? = some (b "resumed") → getH st = some v →
       P (negotiationSuccess (smQueueResend (resumedC1 c v))))
-    (hfail : ∀ s', SmFailed c.sm s' → ∀ hb wr, wr = c.sm.resume → P (hsmTail { c with sm := s' } hb wr)) :
+    (hfail : ∀ s', SmFailed c.sm s' →
+      (s'.queue = c.sm.queue ∨ s'.queue = smQueueCleanup c.sm.queue ((getH st).getD 0)) →
+      ∀ hb wr, wr = c.sm.resume → P (hsmTail { c with sm := s' } hb wr)) :
     P (handleSm c st) := by
   have keep : ∀ (s' : SmState), s'.enabled = false → s'.queue = c.sm.queue → s'.sentNr = c.sm.sentNr →
       s'.id = c.sm.id → s'.previd = c.sm.previd → s'.boundJid = c.sm.boundJid → s'.support = c.sm.support →
@@ -322,7 +324,7 @@ theorem handleSm_cases (P : Conn → Prop) (c : Conn) (st : XTree)
         · split
           · exact keep _ rfl rfl rfl rfl rfl rfl rfl rfl
           · rename_i v hv
-            have := hres ours v hp hname
+            have := hres ours v hp hname hv
             unfold resumedC1 at this
             exact this
     · refine pred_ite (P := P) (fun _ => ?_) (fun _ => ?_)
@@ -334,14 +336,14 @@ theorem handleSm_cases (P : Conn → Prop) (c : Conn) (st : XTree)
           by_cases h1 : cause.name?.getD [] = b "item-not-found"
           · by_cases h2 : c.sm.resume = true
             · simp only [h1, h2, ↓reduceIte]
-              refine hfail _ ?_ _ _ ?_ <;> first | exact ⟨hq _, rfl, rfl, rfl, rfl, rfl, rfl⟩ | simp [h2]
+              refine hfail _ ?_ ?_ _ _ ?_ <;> first | exact ⟨hq _, rfl, rfl, rfl, rfl, rfl, rfl⟩ | exact .inr rfl | simp [h2]
             · simp only [h1, h2, ↓reduceIte]
-              refine hfail _ ?_ _ _ ?_ <;> first | exact ⟨List.suffix_refl _, rfl, rfl, rfl, rfl, rfl, rfl⟩ | simp [h2]
+              refine hfail _ ?_ ?_ _ _ ?_ <;> first | exact ⟨List.suffix_refl _, rfl, rfl, rfl, rfl, rfl, rfl⟩ | exact .inl rfl | simp [h2]
           · by_cases h3 : cause.name?.getD [] = b "feature-not-implemented"
+            · simp only [h3, ↓reduceIte]
+              refine hfail _ ?_ ?_ _ _ ?_ <;> first | exact ⟨List.suffix_refl _, rfl, rfl, rfl, rfl, rfl, rfl⟩ | exact .inl rfl | rfl
             · simp only [h1, h3, ↓reduceIte]
-              refine hfail _ ?_ _ _ ?_ <;> first | exact ⟨List.suffix_refl _, rfl, rfl, rfl, rfl, rfl, rfl⟩ | rfl
-            · simp only [h1, h3, ↓reduceIte]
-              refine hfail _ ?_ _ _ ?_ <;> first | exact ⟨List.suffix_refl _, rfl, rfl, rfl, rfl, rfl, rfl⟩ | rfl
+              refine hfail _ ?_ ?_ _ _ ?_ <;> first | exact ⟨List.suffix_refl _, rfl, rfl, rfl, rfl, rfl, rfl⟩ | exact .inl rfl | rfl
       · exact keep _ rfl rfl rfl rfl rfl rfl rfl rfl
 
 end Strophe.Lemmas.ConnC04
